@@ -66,6 +66,10 @@ def run_module(pid, P, repo, verif, mode, seed, tier, inp=None, timeout=None):
         os.makedirs(os.path.dirname(env["CARGO_TARGET_DIR"]), exist_ok=True)
         tlock = open(env["CARGO_TARGET_DIR"].rstrip("/") + ".lock", "w")
         fcntl.flock(tlock, fcntl.LOCK_EX)
+        # cargo decides freshness by modification times: this copy was prepared while another check may still have been building,
+        # so its lib.rs is stamped again now (later than any build that finished before the lock was granted) -- the crate is one
+        # compilation unit, a newer lib.rs rebuilds it from this copy's files
+        os.utime(os.path.join(d, "src", "lib.rs"), None)
         t0 = time.time()
         try:
             pr = subprocess.Popen(cmd, cwd=d, env=env, stdout=subprocess.PIPE, stderr=subprocess.PIPE, text=True, start_new_session=True)
@@ -91,7 +95,13 @@ def run_module(pid, P, repo, verif, mode, seed, tier, inp=None, timeout=None):
         res = dict(found=False, cmd=" ".join(cmd) + " (scratch copy of %s + replay/%s)" % (repo, mod), wall_s=round(time.time() - t0, 1), rc=rc)
         if os.path.exists(outp):
             try:
-                res.update(json.load(open(outp)))
+                o = json.load(open(outp))
+                # the module stamps its output with its own source file: an answer from any other module is not an answer
+                if not str(o.get("module_file", "")).endswith("replay/" + mod):
+                    res["note"] = "witness output was produced by %r, not by replay/%s: ignored" % (o.get("module_file"), mod)
+                    res["module_error"] = True
+                else:
+                    res.update(o)
             except ValueError:
                 res["note"] = "unreadable witness output"
         else:
